@@ -531,6 +531,13 @@ fn check_history(h: &History, st: &mut Stats) -> Result<(), Failure> {
 }
 
 pub fn run(ctx: &mut Ctx) {
+    run_inner(ctx);
+    // exact route + wildcard route below it: every sequence of three registrations over all ranges of a
+    // 4-version sub-pool (shared with C05)
+    ctx.enumerate("route_shape_triples", crate::c05::shape_triple_cases(), true, crate::c05::check_shape_triple);
+}
+
+fn run_inner(ctx: &mut Ctx) {
     ctx.rule = "registration histories of 1-12 endpoints over a tiny alphabet (3 literals, 2 variable names, 1 wildcard, 3 methods, 16 version ranges over 3 pool versions, parameter specs that agree or disagree with the template, tag lists against a generated tag policy); oracle = reference conflict rules from the statement for each step, plus, for the accepted set, exhaustive enumeration of all concrete paths of depth <=4 over 4 segment values x 3 methods x 9 versions with the flat-list matcher (at most one match, router agrees, every accepted endpoint reached). non-trivial = history with >=2 accepted and >=1 rejected steps whose decisions involved >=2 different rule classes; distinct by history".into();
     ctx.assume("whether the tag policy applies to unpublished endpoints is not stated; those outcomes are followed, not judged");
     ctx.assume("a scalar type for a wildcard variable and an int-array for a wildcard are not generated (the statement is silent)");
